@@ -8,8 +8,8 @@ DEC = CORE + ["GenHeader", "GenTypes", "GenTracker", "GenReader", "GenRData"]
 PROPS = {
     "C01": {"level": "proof", "areas": DEC, "theorems": [], "streams": ["scripts", "decode"]},
     "C04": {"level": "proof", "areas": DEC, "theorems": [], "streams": ["rdlen"]},
-    "C05": {"level": "proof", "areas": CORE + ["GenWriter"], "theorems": [], "streams": ["nametext"]},
-    "C18": {"level": "proof", "areas": ["GenConst", "GenNames"], "theorems": [], "streams": ["nameord"]},
+    "C05": {"level": "proof", "areas": CORE + ["GenWriter"], "theorems": ["C05_parse_iff_valid", "C05_from_str", "C05_decoded_valid"], "streams": ["nametext"]},
+    "C18": {"level": "proof", "areas": ["GenConst", "GenNames"], "theorems": ["C18_eq_iff_cmp", "C18_eq_is_fold", "C18_cmp_is_lex", "C18_cmp_antisym", "C18_cmp_trans", "C18_hash", "C18_hash_is_fold"], "streams": ["nameord"]},
     "C11": {"level": "proof", "areas": CORE + ["GenWriter", "GenQuery", "GenHeader"], "theorems": [], "streams": ["wire"]},
     "C10": {"level": "proof", "areas": DEC, "theorems": ["C10_at_pure", "C10_history_independent", "C10_witness"], "streams": ["randacc"]},
     "C17": {"level": "proof", "areas": DEC, "theorems": ["C17_no_ub", "C17_slices_inside"], "streams": ["misuse"]},
